@@ -152,9 +152,13 @@ func (s setup) router() *rux.Router {
 	}
 	r := rux.New(opts...)
 	if s.second != "" {
-		if strings.HasSuffix(s.second, "files") {
+		switch {
+		case strings.HasPrefix(s.second, "/v2/"):
+			// the second root mounted under the SAME prefix text as the first mount, inside a group
+			r.Group("/v2", func() { r.StaticFiles(strings.TrimPrefix(s.second, "/v2"), root2, "css|js|txt") })
+		case strings.HasSuffix(s.second, "files"):
 			r.StaticFiles(s.second, root2, "css|js|txt")
-		} else {
+		default:
 			r.StaticDir(s.second, root2)
 		}
 	}
@@ -301,7 +305,10 @@ func prop(t *rapid.T) {
 		ev.Class("mount-inside-a-group")
 	}
 	if rapid.IntRange(0, 2).Draw(t, "secondMount") == 0 {
-		s.second = rapid.SampledFrom([]string{"/pub", "/pubfiles"}).Draw(t, "secondPrefix")
+		s.second = rapid.SampledFrom([]string{"/pub", "/pubfiles", "/v2" + s.prefix}).Draw(t, "secondPrefix")
+		if s.kind == "StaticFile" && strings.HasPrefix(s.second, "/v2/") {
+			s.second = "/pub"
+		}
 		s.cacheCap = rapid.IntRange(0, 2).Draw(t, "cacheCap")
 	}
 	if rapid.IntRange(0, 3).Draw(t, "globalVarFile") == 0 {
